@@ -204,10 +204,10 @@ def attach_tokenizer(prop="C11", with_budget=True):
         if not isinstance(buffer, str):
             return orig(self, buffer, *a, **k)
         keep = not bool(self.exclude_padding)
-        try:
-            funcs = set(self.functions)   # the names registered on THIS instance right now
-        except Exception:
-            funcs = None
+        # the function names this instance is SUPPOSED to know: the documented one, plus whatever the
+        # harness itself registered on this very instance (it records that in _vmon_funcs).  Not read
+        # from self.functions: a registry shared between instances would vouch for its own leak.
+        funcs = getattr(self, "_vmon_funcs", None)
         if b is not None and b.ok:
             b.start(step_limit(buffer))
         try:
